@@ -5,6 +5,7 @@ import (
 	"errors"
 	"fmt"
 	"net"
+	"time"
 
 	"google.golang.org/grpc"
 	"google.golang.org/grpc/credentials/insecure"
@@ -69,7 +70,20 @@ func (w *World) openExternal() error {
 	if w.Cont == nil {
 		return errors.New("harness: cannot reach the DI container of the app")
 	}
-	return nil
+	// The client connects lazily and its calls are fail-fast: on a badly overloaded machine the very
+	// first call can fail with Unavailable while the connection is still being set up (seen once in a
+	// thorough sweep: step 0 returned ErrUnknown, never reproduced). Connection set-up is not part of
+	// any history: wait until one call has gone through.
+	var werr error
+	for i := 0; i < 100; i++ {
+		if _, werr = db.GetKeys(ctx); werr == nil {
+			return nil
+		}
+		time.Sleep(100 * time.Millisecond)
+	}
+	w.ext.stop()
+	w.ext = nil
+	return fmt.Errorf("the server did not become reachable: %w", werr)
 }
 
 func (e *extServer) txCtx(ctx context.Context, id string) context.Context {
